@@ -220,6 +220,20 @@ def sweep_slots(quick):
                 yield {"sweep": "slots", "spec": {"parts": [{"vols": vols}]}}
 
 
+def sweep_pairlen(quick):
+    """L/R pairs of equal length for every length around the transcoder's 2048-word block and the sector size, contiguous
+    and fragmented"""
+    for n in (1, 2047, 2048, 2049, 4025, 4026, 4027, 4095, 4096, 4097, 6000, 8122, 12218, 12219):
+        for frag in (False, True):
+            m = A.needed_sectors(140 + 2 * n)
+            cl, cr = list(range(4, 4 + m)), list(range(4 + m, 4 + 2 * m))
+            if frag:
+                cl, cr = (cl + cr)[0::2], (cl + cr)[1::2][::-1]
+            files = [{"name": "WIDE-L", "n": n, "chain": cl, "seq": 1}, {"name": "WIDE-R", "n": n, "chain": cr, "seq": 2},
+                     {"name": "MONO", "n": 33, "chain": [4 + 2 * m], "seq": 3}]
+            yield {"sweep": "pairlen", "spec": {"parts": [{"vols": [{"name": "VOL", "dir": [3], "files": files, "pairs": [[0, 1, "WIDE"]]}]}]}}
+
+
 def sweep_bigdir(quick):
     """large volumes: n one-sector samples for n around powers of two, around the capacity of a one-sector file table (340
     entries) and up to the 510 entries of a two-sector table"""
@@ -293,7 +307,8 @@ class Check(CheckBase):
             "single deviations; (names) 9 families of names using the non-letter characters of the AKAI set (. # + - digits "
             "blanks, 12 characters) x 4 volume names, judged by content only; (slots) every set of <=3 (thorough 4) occupied "
             "volume-table slots out of {0,1,2,3,50,98,99} in both storage orders; (bigdir) volumes of 63..510 one-sector samples "
-            "(around powers of two and the 340-entry capacity of a one-sector file table); the header, structure, names and slots "
+            "(around powers of two and the 340-entry capacity of a one-sector file table); (pairlen) equal-length L/R pairs of 1..12219 words (around the 2048-word block and the sector "
+            "size), contiguous and interleaved chains; the header, structure, names and slots "
             "cases export twice from one image object and the second export must equal the first. non-trivial = non ascending-contiguous multi-sector chain, or file filling its last "
             "sector exactly, or >1 partition/volume")
     assumptions = ["independent AKAI writer (mcv/gen/akai.py) and RIFF walker are correct",
@@ -301,7 +316,7 @@ class Check(CheckBase):
 
     def shards(self):
         cases = []
-        for sw in (sweep_length, sweep_slack, sweep_sizes, sweep_header, sweep_structure, sweep_pairs, sweep_alloc, sweep_names, sweep_slots, sweep_bigdir):
+        for sw in (sweep_length, sweep_slack, sweep_sizes, sweep_header, sweep_structure, sweep_pairs, sweep_alloc, sweep_names, sweep_slots, sweep_bigdir, sweep_pairlen):
             cases.extend(sw(self.quick))
         self._n = len(cases)
         return self.chunk(cases, 24)
